@@ -14,11 +14,14 @@ RULE = (
     'both, several packs with small pack_size_target, deletions) with all handles closed; operation with generated parameters '
     'out of add_object/add_streamed_object (new, duplicate, over a damaged loose copy), direct-to-pack (4 APIs x compress x '
     'no_holes x read_twice), pack_all_loose (mode x clean_loose_per_pack x validate x do_fsync), clean_storage(vacuum), '
-    'delete_objects, repack(mode), repack_pack, import_objects, loosen_object, seeking read that re-loosens. A counting run '
-    'under the I/O shim lists the N state-changing events (raw write(2) of the buffered file, truncate, fsync, rename/replace/'
-    'link/unlink/mkdir, open-for-write, SQL statement, SQL commit); then for EVERY k in 0..N-1 the pre-state is copied, the '
-    'operation re-run in a forked child that os._exit()s immediately before event k (user-space buffers lost, no finally), and '
-    'for every raw write additionally after writing only half of the buffer (torn write). Oracle on what is left: raw reader '
+    'delete_objects, repack(mode), repack_pack, import_objects, loosen_object, seeking read that re-loosens. The '
+    'state-changing events are (raw write(2) of the buffered file, truncate, fsync, rename/replace/'
+    'link/unlink/mkdir, open-for-write, SQL statement, SQL commit); the operation is run ONCE under the I/O shim, which '
+    'photographs the container folder immediately before EVERY state-changing event k (and once after the call returned): '
+    'since a kill only loses user-space state (Python buffers, uncommitted SQLite pages) that never reached the files, each '
+    'photograph is exactly what os._exit() before event k leaves behind; for every raw write a second image gets half of the '
+    'buffer appended (torn write). At generated points per pair the operation is ALSO re-run in a forked child that really '
+    'os._exit()s before event k, and the resulting tree must be identical to the photograph. Oracle on each image: raw reader '
     '(sqlite3+slices+zlib): every pre-state object not targeted by a deletion still present, every visible key (loose file, '
     'index row) carries exactly the bytes of its digest, no foreign key; fresh handle: right bytes, or NotExistent only for '
     'objects being added/deleted, or a loud failure only while the index points at repack pack -1 - never wrong bytes. The '
@@ -127,6 +130,7 @@ def run_shard(ctx):
     explore(ctx, cr.strategy(), run_one, 60 if quick else 1500)
     # `explore` counts one evaluation per pair on top of the kill points: keep only kill points in `evaluations`
     ctx.stats.extra['pairs'] = ctx.stats.hist.get('pair-exhaustive', 0)
+    ctx.stats.extra['every_event_of_every_pair_used'] = True
     ctx.stats.evaluations -= ctx.stats.extra['pairs'] + ctx.stats.hist.get('pair-skipped', 0)
     ctx.stats.exhaustive = None
     del before
